@@ -310,12 +310,13 @@ def run_dispatch(cfg):
 
 
 def run_config(cfg):
+    import copy
+
     if cfg.get("kind") == "dispatch":
         return run_dispatch(cfg)
     res = new_result(cfg)
-    gene = gengene.load(cfg["gene"], cfg["genome"])
-    mins = minors(gene)
-    cov = coverage_for(gene)
+    pristine = gengene.load(cfg["gene"], cfg["genome"])
+    mins = minors(pristine)
     nsol, k = cfg["nsol"], cfg["k"]
     eng = Engine(name="c12")
     idx = [[z3.Int(f"m{s}_{i}") for i in range(k)] for s in range(nsol)]
@@ -339,8 +340,21 @@ def run_config(cfg):
                 j = eng.choose(idx[s][i], range(len(mins)))
                 p.append((mins[j][0], mins[j][1], eng.branch(ad[s][i]), eng.branch(lo[s][i])))
             picks.append(p)
+        # a fresh copy of the database per case: a writer that edits the catalogue must
+        # not leak into the next case (and is reported for this one)
+        gene = copy.deepcopy(pristine)
+        cov = coverage_for(gene)
         sols = [make_solution(gene, p) for p in picks]
-        return picks, check_files(gene, sols, cov)
+        probs = check_files(gene, sols, cov)
+        same = all(
+            gene.alleles[a].func_muts == pristine.alleles[a].func_muts
+            and {k: v.neutral_muts for k, v in gene.alleles[a].minors.items()}
+            == {k: v.neutral_muts for k, v in pristine.alleles[a].minors.items()}
+            for a in pristine.alleles)
+        if not same:
+            probs.append("[DBEDIT] a writer modified the gene database (allele "
+                         "definitions differ from a fresh load afterwards)")
+        return picks, probs
 
     ncase = 0
     for dec, pc, (picks, probs) in eng.explore(run, base, max_paths=400000):
